@@ -30,15 +30,15 @@ def check(pid, level, text, note, technique, ref):
 
 CHECKS = {
  "C01": check("C01", "exploration",
-   "Seeded search over delivery schedules: every run partitions a seeded signal into chunks per live replica (adversarial cuts at/around turning points and inside plateaus, length-1 chunks, >=3 chunks, now and then thousands of tiny chunks or recordings beyond 2**16 samples), interleaves 1-4 live 3-point/4-point/FKM detector instances with five recorder kinds (incl. three user-written ones, one of which works inside the callbacks: look-ups in the chunk bookkeeping and a second detector fed from within record_values - the only pre-emption points of this code), delivers chunks in several containers and dtypes (also changing from block to block), injects refused blocks (a malformed block raises, is caught, the history goes on), overwrites the caller's buffer after the call in 30% of the runs, and after every delivery compares the replica with a fresh one-piece replica of the consumed prefix and maps every reported global index back through the chunk bookkeeping to the sample actually delivered. A canary scenario detects process-wide state left behind by a run. Sampling, not proof; the right level because the space (signals x partitions x interleavings) is unbounded. In a quarter of the runs the history ends with residue doubling: the detector is fed the very array its residuals property handed out.",
+   "Seeded search over delivery schedules: every run partitions a seeded signal into chunks per live replica (adversarial cuts at/around turning points and inside plateaus, length-1 chunks, >=3 chunks, now and then thousands of tiny chunks or recordings beyond 2**16 samples), interleaves 1-4 live 3-point/4-point/FKM detector instances with five recorder kinds (incl. three user-written ones, one of which works inside the callbacks: look-ups in the chunk bookkeeping and a second detector fed from within record_values - the only pre-emption points of this code), delivers chunks in several containers and dtypes (also changing from block to block), injects refused blocks (a malformed block raises, is caught, the history goes on), overwrites the caller's buffer after the call in 30% of the runs, and after every delivery compares the replica with a fresh one-piece replica of the consumed prefix and maps every reported global index back through the chunk bookkeeping to the sample actually delivered. A canary scenario detects process-wide state left behind by a run. Sampling, not proof; the right level because the space (signals x partitions x interleavings) is unbounded. In a quarter of the runs the history ends with residue doubling: the detector is fed the very array its residuals property handed out. Blocks that end at a reversal are now and then delivered with flush=True in the middle of a history; every chunk look-up is repeated with narrow integer index arrays.",
    "Trusted: the one-piece replica of the working tree as reference (its meaning is pinned independently by C02). Thorough tier only: a marathon with about 2**24 turning points in one call, one piece against chunks. Minimised witnesses are replayed in a fresh interpreter under another PYTHONHASHSEED before being reported.",
    "deterministic simulation: seeded chunk-delivery scheduler over interleaved live detector replicas, prefix-refinement oracle against a single-copy reference, ddmin-minimised replay traces", "DESIGN.md 4.1"),
  "C02": check("C02", "exploration",
-   "The executable four-point / HCM definition (models/rainflow_ref.py) is the simulator's sequential specification: one-piece replicas of all three detectors and find_turns are compared with it on seeded signals with heavy ties and plateaus (I3), and under every seeded chunk schedule the exactly-once accounting of turning points (cycle ends + residual = turning points of the consumed prefix, indices address their values) is checked at every border (I4). The old-style counters RainflowCounterThreePoint / RainflowCounterFKM (facades of the same detectors) are driven in chunks with the loops read between the calls and judged by the same definition.",
+   "The executable four-point / HCM definition (models/rainflow_ref.py) is the simulator's sequential specification: one-piece replicas of all three detectors and find_turns are compared with it on seeded signals with heavy ties and plateaus (I3), and under every seeded chunk schedule the exactly-once accounting of turning points (cycle ends + residual = turning points of the consumed prefix, indices address their values) is checked at every border (I4). The old-style counters RainflowCounterThreePoint / RainflowCounterFKM (facades of the same detectors) are driven in chunks with the loops read between the calls and judged by the same definition. Mid-stream flushes at reversals must change nothing that is reported afterwards.",
    "Trusted: models/rainflow_ref.py (written from the statement). I3 itself has no schedule in it; the schedule-dependent content is I4. Thorough tier only: marathon histories whose sample counter passes 2**31 / 2**32 (closed-form signal, closed-form turning points).",
    "deterministic simulation: reference-model (sequential specification) oracle plus exactly-once accounting invariant checked at every chunk border of seeded delivery schedules", "DESIGN.md 4.2"),
  "C03": check("C03", "exploration",
-   "Fault-injecting configuration of the stream world: a twin replica receives the signal with injected non-reversal samples (duplicates, intermediate points, slope plateaus, trailing duplicates), NaN samples, negated, exactly affinely mapped, or wrapped in a pandas Series with seven index types; its cycles, residuals and indices must equal the image of the reference replica's. Each fault kind is counted when it fires. Blocks of the twin are also handed over as non-contiguous views of a wider array (a channel of a multi-channel recording).",
+   "Fault-injecting configuration of the stream world: a twin replica receives the signal with injected non-reversal samples (duplicates, intermediate points, slope plateaus, trailing duplicates), NaN samples, negated, exactly affinely mapped, or wrapped in a pandas Series with seven index types; its cycles, residuals and indices must equal the image of the reference replica's. Each fault kind is counted when it fires. Blocks of the twin are also handed over as non-contiguous views of a wider array (a channel of a multi-channel recording). Series labels include unsorted time stamps and time deltas.",
    "Trusted: dyadic signals so that the injected samples and affine maps are exact; the reference replica is fed in one piece, the twin in seeded chunks in 40% of the runs. Thorough tier only: a refinement twin of 2**31 / 2**32 samples against its reversal sequence.",
    "deterministic simulation: seeded stream-fault injection (duplicate / intermediate / NaN samples) into a twin replica compared with an unfaulted reference replica", "DESIGN.md 4.3"),
  "C20": check("C20", "fault_enumeration",
@@ -46,7 +46,7 @@ CHECKS = {
    "Trusted: models/vmap_ref.py; h5py/libhdf5 below the seam (no faults inside libhdf5, the roll-back's own __delitem__, or File.close; no process kill: C20 promises roll-back of a failed call, not crash durability).",
    "deterministic simulation with fault injection at the storage seam: seeded operation histories against a reference model, ENOSPC/EIO enumerated over every h5py create/attribute call of the faulted operation, retry-after-fault progress check", "DESIGN.md 4.7"),
  "C04": check("C04", "exploration",
-   "Histories process_hcm_first(s), process_hcm_second(s) over seeded load sequences that swarm over every junction configuration (last sample a periodic reversal or not, signs of first/last, last between zero and first, leading/trailing plateaus, largest load only at the end, non-reversal last sample passing older reversals) with injected non-reversal samples incl. at the junction; the second-pass multiset of load pairs must equal the closed-loop rainflow count of the periodic reversal sequence (independent oracle), Memory-3 rows must be first-pass and symmetric, an interior-refinement twin must count the same per pass. The passes are also fed two different recordings of the same repeated sequence, from separate objects or read into one buffer refilled in place.",
+   "Histories process_hcm_first(s), process_hcm_second(s) over seeded load sequences that swarm over every junction configuration (last sample a periodic reversal or not, signs of first/last, last between zero and first, leading/trailing plateaus, largest load only at the end, non-reversal last sample passing older reversals) with injected non-reversal samples incl. at the junction; the second-pass multiset of load pairs must equal the closed-loop rainflow count of the periodic reversal sequence (independent oracle), Memory-3 rows must be first-pass and symmetric, an interior-refinement twin must count the same per pass. The passes are also fed two different recordings of the same repeated sequence, from separate objects or read into one buffer refilled in place. Batched replicas use point factors of either sign.",
    "Trusted: models/periodic_rainflow.py. One genuine defect is an open known finding (F-C04-4, narrow signature); three were repaired by a fix: commit.",
    "deterministic simulation: seeded pass histories over junction-configuration swarm with injected non-reversal samples, independent periodic-rainflow oracle, known-finding classifier", "DESIGN.md 4.4"),
  "C05": check("C05", "exploration",
@@ -54,7 +54,7 @@ CHECKS = {
    "Trusted: models/hcm_ref.py; the law's scalar interface. Benign junctions only for the two-pass modes (junctions are C04); mode K4 drives raw process(chunk) histories incl. checkpoints (deepcopy/pickle/fork) and compares batch, solo and reference. Floats to 1e-9 of the quantity's scale.",
    "deterministic simulation: reference-model oracle stepped pass by pass, lock-step solo replicas versus one batched replica, negated twin", "DESIGN.md 4.5"),
  "C13": check("C13", "exploration",
-   "Histories of broadcasts over a pool of shared, aliased and re-entering pandas operands with a seeded uuid4 seam: after every step every pool object must be identical to its snapshot (values, index, level names incl. None, order, class), the returned pair must have identical index, every returned row must carry the original's value at the key restricted to the original's levels (NaN where absent) with no key lost or duplicated, and allowable-cycle calculations must equal the scalar formula. Coincidences are manufactured: equal key positions, shared index objects, placeholder-like level names, data columns labelled like a level of the other operand.",
+   "Histories of broadcasts over a pool of shared, aliased and re-entering pandas operands with a seeded uuid4 seam: after every step every pool object must be identical to its snapshot (values, index, level names incl. None, order, class), the returned pair must have identical index, every returned row must carry the original's value at the key restricted to the original's levels (NaN where absent) with no key lost or duplicated, and allowable-cycle calculations must equal the scalar formula. Coincidences are manufactured: equal key positions, shared index objects, placeholder-like level names, data columns labelled like a level of the other operand. Categorical level keys with per-operand category order.",
    "Trusted: the key-wise dictionary model in worlds/operands.py; pandas. Weakest fit of the family: there is no fault to inject, only histories, aliasing and coincidences between operands.",
    "deterministic simulation: seeded operation histories over an aliased operand pool with snapshot invariants after every step and a key-wise reference model", "DESIGN.md 4.6"),
 }
